@@ -490,6 +490,22 @@ func classifyRange(p *packages.Package, site rangeSite) (class string, why strin
 			}
 		}
 	}
+	// `for k := range m { return k }`: the element of a map that has at most one
+	if len(body) == 1 {
+		if ret, ok := body[0].(*ast.ReturnStmt); ok && len(ret.Results) >= 1 && (nospace(ret.Results[0]) == key || (val != "" && nospace(ret.Results[0]) == val)) {
+			gs := append(guardsOf(site.Outer.Body, rs.Pos()), factsAt(site.Outer.Body, rs.Pos())...)
+			m := nospace(rs.X)
+			for _, gd := range gs {
+				if gd == "!(len("+m+")>1)" || gd == "len("+m+")<=1" || gd == "len("+m+")==1" {
+					return "only-element", ""
+				}
+			}
+			if onlyElementAtCallers(p, site.Outer, m) {
+				return "only-element", ""
+			}
+			return "", "returns the first element of a map that may have several"
+		}
+	}
 	if len(body) == 2 {
 		if as, ok := body[0].(*ast.AssignStmt); ok && nospace(as.Rhs[0]) == key {
 			if br, ok := body[1].(*ast.BranchStmt); ok && br.Tok == token.BREAK {
@@ -520,7 +536,11 @@ func classifyRange(p *packages.Package, site rangeSite) (class string, why strin
 // corresponding argument is known to have at most one element (an enclosing `len(arg) <= 1`, or the else arm of
 // `len(arg) > 1`).
 func onlyElementAtCallers(p *packages.Package, fd *ast.FuncDecl, m string) bool {
-	if fd == nil || fd.Type.Params == nil {
+	return onlyElementAtCallersD(p, fd, m, 0)
+}
+
+func onlyElementAtCallersD(p *packages.Package, fd *ast.FuncDecl, m string, depth int) bool {
+	if fd == nil || fd.Type.Params == nil || depth > 3 {
 		return false
 	}
 	idx, i := -1, 0
@@ -580,6 +600,10 @@ func onlyElementAtCallers(p *packages.Package, fd *ast.FuncDecl, m string) bool 
 					if f == "len("+arg+")<=1" || f == "len("+arg+")==1" || f == "len("+arg+")<2" {
 						known = true
 					}
+				}
+				// the argument is itself an unassigned parameter of the caller: the caller's callers know
+				if !known && onlyElementAtCallersD(p, caller, arg, depth+1) {
+					known = true
 				}
 				if !known {
 					okAll = false
